@@ -195,7 +195,7 @@ PROPS['C04'] = {
     'level': 'exploration',
     'runs': [{'name': 'asan', 'flavour': 'asan', 'driver': 'drv_c04'}],
     'require': {'keygen.args_equal_model': 30000, 'keygen.key_page_made_inaccessible_on_kdf_return': 1000, 'paths.agree': 8000, 'neighbours.differ': 5000,
-                'keygen.path.created': 5000, 'keygen.path.decoded': 5000, 'keygen.keysize.0': 1000, 'keygen.keysize.4096': 1000, 'concurrent.keygens_equal_model': 50000, 'paths.crypt_under_a_different_feature_mask': 5000, 'huge.key_sizes_passed_unaltered': 90, 'paths.created_with_high_argument_bits': 5000},
+                'keygen.path.created': 5000, 'keygen.path.decoded': 5000, 'keygen.keysize.0': 1000, 'keygen.keysize.4096': 1000, 'concurrent.keygens_equal_model': 50000, 'paths.crypt_under_a_different_feature_mask': 5000, 'huge.key_sizes_passed_unaltered': 90, 'paths.created_with_high_argument_bits': 5000, 'paths.crypt_with_failing_allocator': 3000},
 }
 MANIFEST_TEXT['C04'] = {'technique': 'runtime monitoring: PBKDF2 monitor records all seven arguments of every call; compared with the model; key buffer guarded by ASan red zones / mprotect',
     'text': 'Every polyseed_keygen call of the workload (seeds reached by create, load, decode from every language, double crypt, stored-encrypted-then-decrypted; boundary and random coins; key sizes 0..4096) must invoke the injected KDF exactly once with the exact password, lengths, salt, 10000 iterations and the caller\'s buffer; the buffer must afterwards hold exactly what the monitor wrote, and in a sub-sample the page is made inaccessible when the monitor returns so that any later access by the library faults. An online map asserts one KDF input per abstract (seed, coin) and one abstract key per KDF input. Crypt/keygen also run while a different user-feature mask is enabled, and a fourth section derives keys from 8 threads at once (yields inside the KDF monitor): every call must still see exactly its own inputs. Seeds are created with arbitrary high bits in the feature argument (only the three low bits may reach the seed and the salt).',
@@ -348,3 +348,22 @@ PROPS['C20'] = {
 MANIFEST_TEXT['C20'] = {'technique': 'runtime monitoring: ThreadSanitizer build (library + harness) under multi-threaded scripted workloads with yields injected at the dependency callbacks; serial-vs-concurrent transcript equality',
     'text': 'After one injection and one feature configuration, 8 and 16 threads execute deterministic scripts of every seed operation on private seeds (all languages), with random sched_yield/spins inside the dependency callbacks (the library\'s own suspension points) and several repetitions with different yield seeds. Any ThreadSanitizer report with a library frame is a violation (deduplicated by entry-point pair); each thread\'s transcript digest must equal that of the same script executed alone. A logical clock (relaxed atomics, so that it adds no synchronisation) measures how many call pairs of different threads really overlapped, per operation pair; a run with too few is inconclusive. Rounds rotate over three dependency tables: all entries injected, libc clock (time NULL), libc clock + malloc + free; libc time() is interposed so that results stay deterministic. Half of the automatic decodes pass lang_out = NULL, and one creation in sixteen sees a failing or odd clock ((time_t)-1, 0, before the epoch, far future). Every status a worker thread observes is compared with the model (the feature mask configured by the main thread holds on every thread).',
     'note': _TB + 'TSan is happens-before based and sees only the executions produced; the harness records nothing under locks while threads run, so that it adds no happens-before edges of its own.'}
+
+# ---------------------------------------------------------------------------------------------------------------
+# Configuration stripes: "which code is compiled" is an input of every property (DESIGN.md 2.9, lessons i and v).  Every functional driver
+# that does not need the libc interposition flavours also runs a thin stripe of its workload on: a library built with unsigned plain char,
+# a clang build, -march=native, MemorySanitizer, a non-UTF-8 execution charset, and the assertion-enabled build.
+_AXES = [('uchar', 'uchar', '8'), ('clang', 'clang-asan', '8'), ('native', 'asan-native', '8'), ('msan', 'msan', '8'), ('cp932', 'asan-cp932', '5'), ('asan-dbg', 'asan-dbg', '6')]
+for _p in ('C01', 'C02', 'C03', 'C04', 'C05', 'C06', 'C07', 'C08', 'C09', 'C10', 'C12', 'C14', 'C17'):
+    _runs = PROPS[_p]['runs']
+    _drv = _runs[0]['driver']
+    _have = {r['flavour'] for r in _runs}
+    for _name, _fl, _sc in _AXES:
+        if _fl in _have:
+            continue
+        _env = {'PV_SCALE': _sc}
+        if _fl == 'msan':
+            _env['PV_NO_STATIC_MONITOR'] = '1'
+            if _p == 'C14':
+                _env['PV_SKIP_SECTIONS'] = 'huge'
+        _runs.append({'name': 'cfg-' + _name, 'flavour': _fl, 'driver': _drv, 'env': _env, 'shards': 3, 'timeout': 1800})
